@@ -472,6 +472,11 @@ func (s *AbsfsNFS) WriteWithContext(ctx context.Context, node *NFSNode, offset i
 
 	n, err := f.WriteAt(data, offset)
 	if err == nil {
+		// handleWrite always replies FILE_SYNC, so the data must reach
+		// stable storage before the write is acknowledged.
+		err = f.Sync()
+	}
+	if err == nil {
 		// Invalidate cache after successful write
 		s.attrCache.Invalidate(node.path)
 
